@@ -194,3 +194,97 @@ def build_query(hyps, goal, extra_decls=(), get_values=None, logic='ALL', opaque
     if get_values:
         lines.append('(get-value (%s))' % ' '.join(get_values))
     return '\n'.join(lines) + '\n'
+
+
+def pre_query(ob):
+    """a cheaper query whose unsatisfiability implies that of the full one: for a definitional hint (a fact that follows from the
+    specification functions alone) the goal WITHOUT the path hypotheses, otherwise the query with the specification functions opaque"""
+    if getattr(ob, 'kind', '') == 'hint':
+        return build_query([], _generalise(ob.goal))
+    return build_query(ob.hyps, ob.goal, opaque=True)
+
+
+def _generalise(goal):
+    """the goal with every maximal heap / record expression (store and select chains) replaced by a fresh constant of its sort, the
+    same constant for the same expression: a proof of the generalised goal is a proof of the instance, and the solvers no longer
+    carry the expressions through every unfolding of a specification function"""
+    from . import terms as t
+    memo, fresh = {}, {}
+
+    def walk(x):
+        if not isinstance(x, t.T) or x.op in ('int', 'bool', 'strlit', 'var', 'raw'):
+            return x
+        if x.op == 'forall':
+            return x
+        if id(x) in memo:
+            return memo[id(x)]
+        if x.op in ('store', 'select') and isinstance(x.sort, str):
+            k = x.smt()
+            if k not in fresh:
+                fresh[k] = t.var('gen!%d' % len(fresh), x.sort)
+            r = fresh[k]
+        else:
+            args = tuple(walk(a) if isinstance(a, t.T) else a for a in x.args)
+            r = x if all(a is b for a, b in zip(args, x.args)) else t.T(x.sort, x.op, args)
+        memo[id(x)] = r
+        return r
+    return walk(goal)
+
+
+class DefInstance:
+    """an instance of the defining equation of a specification function, generated mechanically from the registered definition text
+    (f(a1..an) = let p1 = a1 .. pn = an in body): true by definition, so it is assumed as a hint without an obligation of its own"""
+
+    def __init__(self, term):
+        self.term = term
+
+
+def _sexpr_at(text, i):
+    """end index (exclusive) of the s-expression starting at text[i]"""
+    while text[i].isspace():
+        i += 1
+    if text[i] != '(':
+        j = i
+        while j < len(text) and not text[j].isspace() and text[j] not in '()':
+            j += 1
+        return i, j
+    depth, j, instr = 0, i, False
+    while True:
+        ch = text[j]
+        if ch == '"':
+            instr = not instr
+        elif not instr:
+            if ch == '(':
+                depth += 1
+            elif ch == ')':
+                depth -= 1
+                if depth == 0:
+                    return i, j + 1
+        j += 1
+
+
+def definition_instance(name, args):
+    from . import terms as t
+    spec = REGISTRY[name]
+    text = spec.smt
+    head = '(define-fun-rec ' if text.startswith('(define-fun-rec ') else '(define-fun '
+    assert text.startswith(head + name + ' '), name
+    i = len(head) + len(name)
+    a, b = _sexpr_at(text, i)
+    params_text = text[a + 1:b - 1]
+    params, k = [], 0
+    while params_text[k:].strip():
+        x, y = _sexpr_at(params_text, k)
+        params.append(params_text[x + 1:y - 1].split()[0])
+        k = y
+    a, b2 = _sexpr_at(text, b)
+    ret = text[a:b2]
+    body = text[b2:].rstrip()
+    assert body.endswith(')'), name
+    body = body[:-1].strip()
+    assert len(params) == len(args), (name, params, len(args))
+    binds = t.T('', '', tuple(t.T('', p, (x,)) for p, x in zip(params, args)))
+    rsort = {v: k_ for k_, v in t.SORT_SMT.items()}.get(ret, ret)
+    lhs = t.T(rsort, name, tuple(args))
+    rhs = t.T(rsort, 'let', (binds, t.raw(body, rsort)))
+    return DefInstance(t.T(t.BOOL, '=', (lhs, rhs)))
